@@ -76,6 +76,9 @@ func (s *Slot) ranges() [][2]uintptr {
 // dataPtr reads the data pointer of the slice header p designates.
 func dataPtr(p *[]byte) uintptr { return (*[3]uintptr)(unsafe.Pointer(p))[0] }
 
+// uintptrOf is the address Malloc returned (where the slice header lives).
+func uintptrOf(p *[]byte) uintptr { return uintptr(unsafe.Pointer(p)) }
+
 func splitmix(x uint64) uint64 {
 	x += 0x9E3779B97F4A7C15
 	x = (x ^ (x >> 30)) * 0xBF58476D1CE4E5B9
@@ -485,13 +488,21 @@ func (t *Tracker) Defrag(others ...*Tracker) (*DefragReport, *Fail) {
 // by the mapped page they landed in (pages in order of first appearance, slots in
 // address order). pageSize is the allocator's shared page size.
 func (t *Tracker) FillPages(sizes []int, count int, pageSize uintptr) ([][]*Slot, *Fail) {
-	var order []uintptr
-	groups := map[uintptr][]*Slot{}
+	start := len(t.Live)
 	for i := 0; i < count; i++ {
-		s, f := t.Malloc(sizes[i%len(sizes)])
-		if f != nil {
+		if _, f := t.Malloc(sizes[i%len(sizes)]); f != nil {
 			return nil, f
 		}
+	}
+	return GroupByPage(t.Live[start:], pageSize), nil
+}
+
+// GroupByPage groups slots by the mapped page (address rounded down to pageSize)
+// they live in: pages in order of first appearance, slots in address order.
+func GroupByPage(slots []*Slot, pageSize uintptr) [][]*Slot {
+	var order []uintptr
+	groups := map[uintptr][]*Slot{}
+	for _, s := range slots {
 		pg := s.Hdr &^ (pageSize - 1)
 		if _, ok := groups[pg]; !ok {
 			order = append(order, pg)
@@ -504,7 +515,7 @@ func (t *Tracker) FillPages(sizes []int, count int, pageSize uintptr) ([][]*Slot
 		sort.Slice(g, func(i, j int) bool { return g[i].Hdr < g[j].Hdr })
 		res = append(res, g)
 	}
-	return res, nil
+	return res
 }
 
 // Survivor patterns of a page.
